@@ -187,6 +187,9 @@ impl<'store> ResultTextSelection<'store> {
     /// Returns the end cursor (begin-aligned) of this text selection in another. Returns None if they are not embedded.
     /// This also checks whether the textselections pertain to the same resource. Returns None otherwise.
     pub fn relative_end(&self, container: &ResultTextSelection<'store>) -> Option<usize> {
+        if self.store() != container.store() {
+            return None;
+        }
         let container = match container {
             Self::Bound(item) => item.as_ref(),
             Self::Unbound(_, _, item) => &item,
@@ -206,6 +209,9 @@ impl<'store> ResultTextSelection<'store> {
         container: &ResultTextSelection<'store>,
         offsetmode: OffsetMode,
     ) -> Option<Offset> {
+        if self.store() != container.store() {
+            return None;
+        }
         let container = match container {
             Self::Bound(item) => item.as_ref(),
             Self::Unbound(_, _, item) => &item,
